@@ -153,6 +153,31 @@ class _AsyncResult:
         return self.exc is None
 
 
+class _PoolIterator:
+    """the iterator returned by imap / imap_unordered: __next__ returns the next result or RE-RAISES, AS IT IS, the
+    exception object the worker's call ended with (so a StopIteration coming out of a worker ends a for-loop silently -
+    that is how the real iterator behaves, and it matters)"""
+
+    def __init__(self, pool, f, xs, ordered):
+        self.pool, self.f, self.xs, self.ordered = pool, f, xs, ordered
+        self.idx = list(range(len(xs)))
+
+    def __iter__(self):
+        return self
+
+    def __next__(self):
+        if not self.idx:
+            raise StopIteration
+        j = 0 if self.ordered else self.pool._choice(len(self.idx))
+        i = self.idx.pop(j)
+        try:
+            return self.f(self.xs[i])
+        except Exception as e:
+            raise e
+
+    next = __next__
+
+
 class FakePool:
     """multiprocessing.Pool, documented contract only:
     imap yields f(x) in input order; imap_unordered yields the same results in an arbitrary (symbolic) completion order;
@@ -231,14 +256,10 @@ class FakePool:
         return self._submit(lambda: [f(*x) for x in xs], callback, error_callback)
 
     def imap(self, f, xs, chunksize=1):
-        for x in list(xs):
-            yield f(x)
+        return _PoolIterator(self, f, list(xs), ordered=True)
 
     def imap_unordered(self, f, xs, chunksize=1):
-        xs = list(xs)
-        idx = list(range(len(xs)))
-        while idx:
-            yield f(xs[idx.pop(self._choice(len(idx)))])
+        return _PoolIterator(self, f, list(xs), ordered=False)
 
     def map(self, f, xs, chunksize=None):
         return [f(x) for x in list(xs)]
